@@ -1080,7 +1080,12 @@ func vAmpCase(t *testing.T, r *vrng, ci int, backend string, mk VMakeDB) *vCase 
 		setTotal[sid] = total
 		var sharer amp.Sharer = newRoot()
 		rem := total
-		swap := n > 1 && r.intn(10) == 0
+		// one shard of the set declares the child index of another shard (its hash
+		// unchanged): only the per-child hash check of reconstructAMPPreimages sees it
+		swapAt := -1
+		if n > 1 && r.intn(6) == 0 {
+			swapAt = r.intn(n)
+		}
 		for s := 0; s < n; s++ {
 			var left amp.Sharer
 			var err error
@@ -1112,8 +1117,8 @@ func vAmpCase(t *testing.T, r *vrng, ci int, backend string, mk VMakeDB) *vCase 
 				child.Share[3] ^= 0x40 // corrupted share: reconstruction must fail
 			}
 			idx := uint32(s)
-			if swap && s == n-1 {
-				idx = 0 // child index of another shard reused (hash unchanged)
+			if s == swapAt {
+				idx = uint32((s + 1) % n) // child index of another shard reused
 			}
 			t2 := total
 			if r.intn(12) == 0 {
@@ -1159,7 +1164,36 @@ func vAmpCase(t *testing.T, r *vrng, ci int, backend string, mk VMakeDB) *vCase 
 		mkAmp(sid, setID, l.Child(0), 0, a, 2, total, expFor(4))
 		mkAmp(sid, setID, rr.Child(1), 1, total-a, 2, total, expFor(4))
 	}
-	for set := 0; set <= nsets+1; set++ {
+	// directed suffix: a clean two-shard set delivered in order at the end of the
+	// case; in half of the cases its FIRST shard declares the child index of the
+	// second one (hash unchanged), which only the per-child hash check of
+	// reconstructAMPPreimages (older shards) can see
+	var directed []*vHtlc
+	if r.intn(3) == 0 {
+		var setID [32]byte
+		copy(setID[:], r.bytes(32))
+		setID[0] |= 1
+		sid := nsets + 2
+		u.setIDs[setID] = sid
+		total := value
+		if total == 0 {
+			total = 1000
+		}
+		l, rr, err := newRoot().Split()
+		if err != nil {
+			t.Fatal(err)
+		}
+		a := uint64(r.rng(1, int64(total)))
+		idx0 := uint32(0)
+		if r.bool() {
+			idx0 = 1
+		}
+		exp := uint32(baseHeight + margin(invA.Delta) + 20)
+		directed = append(directed, mkAmp(sid, setID, l.Child(0), idx0, a, 1, total, exp))
+		directed = append(directed, mkAmp(sid, setID, rr.Child(1), 1, total-a, 1, total, exp))
+		htlcs = htlcs[:len(htlcs)-2] // not part of the random walk
+	}
+	for set := 0; set <= nsets+2; set++ {
 		if g := groups[set]; len(g) > 0 {
 			if len(g) > 6 {
 				t.Fatalf("amp group too large: %d", len(g))
@@ -1236,6 +1270,12 @@ func vAmpCase(t *testing.T, r *vrng, ci int, backend string, mk VMakeDB) *vCase 
 				run.add(invA)
 			}
 		}
+	}
+	if len(directed) > 0 && !addedA {
+		run.add(invA)
+	}
+	for _, h := range directed {
+		run.notify(h, baseHeight)
 	}
 	c.Ops = run.ops
 	for _, h := range u.hash {
